@@ -61,7 +61,10 @@ func runC09Default(r *Run) {
 	}
 	n := 30 + t.Intn(scale(170, 600), "ops")
 	zeroDur := t.Chance(25, "allow-zero-durations")
-	r.Mixf("C09 default window-size=%d min=%v max=%v threshold=%v ops=%d zero-durations=%v", ws, minW, maxW, thr, n, zeroDur)
+	// slow mode: every completion is at least this old, so the window minimum is large and the
+	// period is governed by 2 x min rtt (clamped by the maximum), not by the minimum window time
+	slowFloor := []time.Duration{0, 0, minW/2 + 1, minW, 2 * minW}[t.Intn(5, "slow-floor")]
+	r.Mixf("C09 default window-size=%d min=%v max=%v threshold=%v ops=%d zero-durations=%v slow-floor=%v", ws, minW, maxW, thr, n, zeroDur, slowFloor)
 	type tok struct {
 		l     core.Listener
 		start int64
@@ -113,6 +116,9 @@ func runC09Default(r *Run) {
 			tk := out[k]
 			out = append(out[:k], out[k+1:]...)
 			o := t.Pick([]int{7, 1, 2}, "outcome")
+			if age := time.Now().UnixNano() - tk.start; slowFloor > 0 && age < int64(slowFloor) {
+				time.Sleep(slowFloor - time.Duration(age))
+			}
 			now := time.Now().UnixNano()
 			rtt := now - tk.start
 			if rtt == 0 && !zeroDur {
